@@ -86,7 +86,7 @@ mod __verif_c41 {
         roundtrip_case(3);
     }
 
-    // @harness tiers=quick,thorough finding=C41-chunk-extension-rejected
+    // @harness tiers=quick,thorough
     // @encodes metastore::gravitino::dechunk
     // @bounds one chunk of 2 symbolic bytes whose size line carries a chunk extension (`2;x`), then the terminating chunk
     // @oracle RFC 9112 7.1.1: a recipient MUST ignore unrecognised chunk extensions, so the body decodes
@@ -160,7 +160,7 @@ mod __verif_c41 {
         truncated_case(3, 4);
     }
 
-    // @harness tiers=quick,thorough finding=C41-missing-chunk-crlf-accepted
+    // @harness tiers=quick,thorough
     // @encodes metastore::gravitino::dechunk
     // @bounds one chunk of 1 byte whose data is followed by two symbolic bytes that are NOT CRLF, then a well-formed terminating chunk
     // @oracle malformed framing (chunk data not terminated by CRLF) is rejected
@@ -213,6 +213,37 @@ mod __verif_c41 {
     fn huge_declared_size_does_not_panic() {
         huge_case(0);
         huge_case(2);
+    }
+
+    // @harness tiers=quick,thorough
+    // @encodes metastore::gravitino::dechunk
+    // @bounds size line = 17 symbolic hex digits with a non-zero leading digit (a size >= 2^64 that no usize can hold), CRLF, then `hello CRLF 0 CRLF CRLF`
+    // @oracle a chunk size that does not fit in usize is malformed framing: rejected, never reduced modulo 2^64 (which would make 10000000000000005 decode as 5, or 10000000000000000 look like the terminator)
+    #[kani::proof]
+    #[kani::unwind(20)]
+    fn size_beyond_usize_is_rejected_not_wrapped() {
+        let digits: [u8; 17] = kani::any();
+        let mut buf = [0u8; 40];
+        let mut n = 0usize;
+        let mut i = 0;
+        while i < 17 {
+            kani::assume(digits[i] < 16);
+            buf[n] = hex_digit(digits[i] as usize, false);
+            n += 1;
+            i += 1;
+        }
+        kani::assume(digits[0] > 0);
+        let tail = b"\r\nhello\r\n0\r\n\r\n";
+        let mut j = 0;
+        while j < tail.len() {
+            buf[n] = tail[j];
+            n += 1;
+            j += 1;
+        }
+        let got = dechunk(&buf[..n]);
+        kani::cover!(digits[16] == 5 && digits[1] == 0);
+        assert!(got.is_none(), "C41.size_beyond_usize_rejected");
+        std::mem::forget(got);
     }
 
     // @playback
